@@ -12,6 +12,9 @@ for pid in ALL:
     except ModuleNotFoundError:
         na.append({"property_id": pid, "reason": "check not built yet (work in progress; see DESIGN.md section 3 for the plan)"})
         continue
+    if not getattr(m, "READY", False) and not getattr(m, "NOT_APPLICABLE", None):
+        na.append({"property_id": pid, "reason": "check under construction (harnesses exist but are not yet accepted; see DESIGN.md section 3)"})
+        continue
     if getattr(m, "NOT_APPLICABLE", None):
         na.append({"property_id": pid, "reason": m.NOT_APPLICABLE})
         continue
